@@ -130,16 +130,23 @@ def gen_cases(ctx):
                 if not applicable(kind, shape):
                     continue
                 n = a * b
+                is2d = kind in KINDS_2D
                 if n == 4:
-                    yield from cases_for(kind, shape, full_vals=(0, 8, 16))
+                    yield from cases_for(kind, shape, full_vals=(0, 8, 16) if (is2d or not quick) else (0, 8))
                 elif n == 6:
-                    yield from cases_for(kind, shape, full_vals=(0, 8, 16) if not quick else (0, 8), nsym=6)
-                elif quick:
-                    # 3x3: all binary arrays where the singleton axis is last, samples + basis elsewhere
-                    if pos == 2 and kind in KINDS_2D:
-                        yield from cases_for(kind, shape, full_vals=(0, 8), nrand=40, nsym=10)
+                    if quick:
+                        if is2d:
+                            yield from cases_for(kind, shape, full_vals=(0, 8), nsym=6)
+                        else:
+                            yield from cases_for(kind, shape, basis=True, nrand=10, nsym=4)
                     else:
-                        yield from cases_for(kind, shape, basis=True, nrand=60, nsym=10)
+                        yield from cases_for(kind, shape, full_vals=(0, 8, 16), nsym=6)
+                elif quick:
+                    # 3x3: all binary arrays for three 2D kinds where the singleton axis is last, samples + basis elsewhere
+                    if pos == 2 and kind in ("h2d", "d2d_main", "d2d_anti"):
+                        yield from cases_for(kind, shape, full_vals=(0, 8), nrand=20, nsym=10)
+                    else:
+                        yield from cases_for(kind, shape, basis=True, nrand=40 if is2d else 20, nsym=8)
                 else:
                     if pos == 2 and kind in ("h2d", "d2d_anti"):
                         yield from cases_for(kind, shape, full_vals=(0, 8, 16))
@@ -147,8 +154,14 @@ def gen_cases(ctx):
                         yield from cases_for(kind, shape, full_vals=(0, 8), nrand=300, nsym=30)
     # ---- 3D
     for kind in KINDS_3D:
-        yield from cases_for(kind, [2, 2, 2], full_vals=(0, 8, 16) if (not quick and kind in ("p3d", "d3d_xz_anti")) else (0, 8), nrand=30, nsym=10)
-        yield from cases_for(kind, [3, 3, 3], basis=True, nrand=60 if quick else 600, nsym=20 if quick else 100)
+        if quick:
+            if kind in ("p3d", "d3d_xy_anti", "d3d_xz_main", "d3d_yz_anti"):
+                yield from cases_for(kind, [2, 2, 2], full_vals=(0, 8), nsym=6)
+            else:
+                yield from cases_for(kind, [2, 2, 2], basis=True, nrand=40, nsym=8)
+        else:
+            yield from cases_for(kind, [2, 2, 2], full_vals=(0, 8, 16) if kind in ("p3d", "d3d_xz_anti") else (0, 8), nrand=30, nsym=10)
+        yield from cases_for(kind, [3, 3, 3], basis=True, nrand=40 if quick else 600, nsym=10 if quick else 100)
     shapes3 = [[2, 2, 3], [2, 3, 2], [3, 2, 2], [3, 3, 2], [3, 2, 3], [2, 3, 3], [4, 4, 4], [2, 3, 4], [4, 3, 2], [5, 5, 2], [2, 5, 5], [5, 2, 5],
                [4, 4, 1], [1, 4, 4], [4, 1, 4], [5, 2, 1], [1, 3, 5], [4, 1, 2], [6, 6, 1], [1, 1, 1], [1, 1, 4], [3, 1, 1]]
     for shape in shapes3:
